@@ -137,6 +137,37 @@ pub fn clone_indep<S: Src, const N: usize>(s: &mut S) {
     std::mem::forget(c);
 }
 
+/// C19: `clone_from` (and thereby `ToOwned::clone_into`) onto a destination that already holds
+/// entries: afterwards the destination is an exact copy of the source (entries, shape, len()),
+/// nothing of its previous contents survives, and the source is untouched.
+pub fn clone_from<S: Src, const N: usize>(s: &mut S) {
+    let (a, ra) = pre::<S, N>(s);
+    let (b, rb) = pre::<S, N>(s);
+    let m = mk_map_simple(&a, &ra);
+    let mut d = mk_map_simple(&b, &rb);
+    #[cfg(kani)]
+    {
+        crate::stubs::allow_alloc(3, N * 40);
+    }
+    d.clone_from(&m);
+    let (dn, dlen) = readback::<N>(&d);
+    let mut same_arena = dlen == N && d.__verif_free().len() == 0;
+    let mut i = 0;
+    while i < N {
+        same_arena = same_arena && dn[i] == a[i];
+        i += 1;
+    }
+    check!(s, same_arena, "C19:clone_from() leaves an exact copy of the source (entries, values, shape)");
+    check!(s, d.len() == count(&a, &ra) && d.is_empty() == (count(&a, &ra) == 0), "C19,C04:len() of the destination of clone_from() is the source's");
+    let q = any_p(s);
+    check!(s, d.get(&q).copied() == lookup_val(&a, &ra, &q), "C19:lookups in the destination of clone_from() answer like the source");
+    check!(s, crate::obs::unchanged_except(s, &m, &a, None), "C19:clone_from() leaves the source unchanged");
+    cover!(s, count(&b, &rb) > count(&a, &ra), "destination held more entries than the source");
+    cover!(s, N < 2 || (entry(&b, &rb, 1) && rb[1] && ra[1] && !entry(&a, &ra, 1)), "a valued destination slot is overwritten by a value-less source node");
+    std::mem::forget(m);
+    std::mem::forget(d);
+}
+
 /// C01/C04/C19: bounded history from `new()`: two inserts (collect in both orders) then lookups;
 /// rebuilding from the own entries in the other order yields an equal map.
 pub fn collect2<S: Src>(s: &mut S) {
